@@ -378,13 +378,17 @@ func readRequest(br *bufio.Reader) (*Request, error) {
 func (b *Backend) serve(c net.Conn, side bool) {
 	defer c.Close()
 	br := bufio.NewReaderSize(c, 64<<10)
-	for b.serveOne(c, br, side) {
-		// a kept-alive connection: wait for the next request
+	for {
+		// a connection on which no request is under way is idle: a kept-alive one between two requests, and one that
+		// olla's transport dialled in reserve and has not used (yet)
 		b.setIdle(c, true)
 		c.SetReadDeadline(time.Now().Add(120 * time.Second))
 		_, err := br.Peek(1)
 		b.setIdle(c, false)
 		if err != nil {
+			return
+		}
+		if !b.serveOne(c, br, side) {
 			return
 		}
 	}
